@@ -677,3 +677,10 @@ use super::{multiply, convert_row_to, convert};
   }
 }
 
+
+// Verification hook (no behaviour change): the converter's modifier
+// classification, so that it can be tabulated for every key code.
+#[cfg(ellbur_totalmapper_verif)]
+pub fn verif_is_modifier(k: &KeyCode) -> bool {
+  is_modifier(k)
+}
